@@ -438,6 +438,16 @@ fn variant(base: &[ModeSpec], v: usize) -> Option<Vec<ModeSpec>> {
         }
         7 => m[0].pats[0].p = "(".into(), // does not build
         8 => { m[0].pats.pop(); if m[0].pats.is_empty() { return None; } }
+        9 => {
+            // a configuration with the same 64-bit FxHash as variant 0 (rustc-hash 2.x: h = (h + word) * K per word; the token types of two consecutive
+            // patterns are four words apart when the first has no lookahead: (a, b) and (a + 1, b - K^4) collide): a cache keyed by the hash alone confuses them
+            const K4: usize = 0xf53a_8bbc_e8b6_ed71;
+            if m[0].pats.len() < 2 || m[0].pats[0].la.is_some() || usize::BITS != 64 { return None; }
+            let tt0 = m[0].pats[0].tt;
+            if m[0].trans.iter().any(|t| t.0 == tt0 || t.0 == tt0 + 1) { return None; }
+            m[0].pats[0].tt = tt0 + 1;
+            m[0].pats[1].tt = m[0].pats[1].tt.wrapping_sub(K4);
+        }
         _ => return None,
     }
     Some(m)
@@ -713,7 +723,8 @@ fn gen_case(family: &str, r: &mut Rng) -> Case {
             pats2.push(PatSpec { p: uniq, tt: 91, la: None });
             let input = gen_input(r, 7);
             let nops = 2 + r.below(5);
-            let ops = (0..nops).map(|_| Op::SetMode(r.below(9))).collect();
+            let mut ops: Vec<Op> = (0..nops).map(|_| Op::SetMode(r.below(10))).collect();
+            if r.below(2) == 0 { ops.insert(0, Op::SetMode(0)); ops.insert(0, Op::SetMode(9)); }
             let t0 = pats[0].tt;
             Case { family: family.into(), modes: vec![ModeSpec { name: "M0".into(), pats, trans: if r.below(2) == 0 { vec![(t0, 1)] } else { vec![] } },
                                                        ModeSpec { name: "M1".into(), pats: pats2, trans: vec![] }],
